@@ -221,9 +221,14 @@ def make_invalid(rng, entry, kind, call, objs):
         spec = dict(call[tname])
         spec['data'] = dict(spec['data'])
         keys = list(spec['data'][side + 'id'])
-        keys[rng.randrange(len(keys))] = None if isinstance(keys[0], str) else gen.NAN
-        spec['data'][side + 'id'] = keys
+        pos = rng.randrange(len(keys))
         spec['dtypes'] = dict(spec['dtypes'])
+        if all(isinstance(k, int) for k in keys) and rng.random() < 0.5:
+            keys[pos] = None                                   # pandas nullable integer key with one <NA>
+            spec['dtypes'][side + 'id'] = 'Int64'
+        else:
+            keys[pos] = None if isinstance(keys[0], str) else gen.NAN
+        spec['data'][side + 'id'] = keys
         if isinstance(keys[0], str) or isinstance(keys[-1], str):
             spec['dtypes'][side + 'id'] = 'object'
         call[tname] = spec
@@ -420,7 +425,12 @@ def accept_case(case, rec, ssj):
         else:
             m = rng.choice(['JACCARD', 'COSINE', 'DICE', 'OVERLAP'])
             call['filter'] = {'kind': kind, 'measure': m, 'threshold': 1 if m == 'OVERLAP' else rng.choice([1.0, 0.5]),
-                              'allow_missing': am}
+                              'allow_missing': am, 'measure_spelling': gen.spell(rng, m)}
+            if rng.random() < 0.15 and T.spec_len(L) and T.spec_len(R):
+                # edit distance needs a q-gram tokenizer (bag mode)
+                call['filter'].update(measure='EDIT_DISTANCE', threshold=rng.choice([0, 1, 2]),
+                                      measure_spelling=gen.spell(rng, 'EDIT_DISTANCE'))
+                call['tok'] = {'kind': 'qgram', 'q': 2, 'padding': True, 'return_set': False}
         call['api'] = 'filter_tables' if entry.startswith('ft:') else 'filter_candset'
     if entry in ('filter_candset', 'apply_matcher'):
         call['candset'] = gen.random_candset(rng, L, R, call['l_key'], call['r_key'],
